@@ -1,18 +1,18 @@
 #!/bin/bash
 # usage: tools/r2_eval.sh <agent worktree> <prop> <prefix: m|r>   — for every out/X: copy to /tmp/r2cand/<prop><prefix>X, run all quick checks on a scratch copy
-# (tools/check_seed.sh) and the confirmation (tools/eval_seed.sh: pinned tests + demo with/without); results under /tmp/r2res/
+# (tools/check_seed.sh) and the confirmation (tools/eval_seed.sh: pinned tests + demo with/without); results under ${RES:-/tmp/r2res}/
 WT=$1; P=$2; K=${3:-m}
-mkdir -p /tmp/r2cand /tmp/r2res
+mkdir -p /tmp/r2cand ${RES:-/tmp/r2res}
 for d in "$WT"/out/[A-D]; do
   [ -f "$d/patch.diff" ] || continue
   X=$(basename "$d"); L=${P}${K}${X}
   [ -d /tmp/r2cand/$L ] || cp -r "$d" /tmp/r2cand/$L
   if [ "$K" = m ]; then
-    [ -f /tmp/r2res/$L.checks ] || /verif/tools/check_seed.sh /tmp/r2cand/$L/patch.diff > /tmp/r2res/$L.checks 2>&1
-    grep -q "demo with change" /tmp/r2res/$L.confirm 2>/dev/null || /verif/tools/eval_seed.sh /tmp/r2cand/$L $L > /tmp/r2res/$L.confirm 2>&1
+    [ -f ${RES:-/tmp/r2res}/$L.checks ] || /verif/tools/check_seed.sh /tmp/r2cand/$L/patch.diff > ${RES:-/tmp/r2res}/$L.checks 2>&1
+    grep -q "demo with change" ${RES:-/tmp/r2res}/$L.confirm 2>/dev/null || /verif/tools/eval_seed.sh /tmp/r2cand/$L $L > ${RES:-/tmp/r2res}/$L.confirm 2>&1
   else
-    [ -f /tmp/r2res/$L.checks ] && continue
-    /verif/tools/eval_refactor.sh /tmp/r2cand/$L $L > /tmp/r2res/$L.summary 2>&1
-    cp /tmp/refres/$L.txt /tmp/r2res/$L.checks 2>/dev/null
+    [ -f ${RES:-/tmp/r2res}/$L.checks ] && continue
+    /verif/tools/eval_refactor.sh /tmp/r2cand/$L $L > ${RES:-/tmp/r2res}/$L.summary 2>&1
+    cp ${REFRES:-/tmp/refres}/$L.txt ${RES:-/tmp/r2res}/$L.checks 2>/dev/null
   fi
 done
